@@ -84,6 +84,15 @@ impl Numeric {
         }
     }
 
+    /// Return true if this value can be compared with `other`:
+    /// same unit, one of them unitless, or convertible units.
+    pub fn is_comparable(&self, other: &Self) -> bool {
+        self.unit == other.unit
+            || self.is_no_unit()
+            || other.is_no_unit()
+            || other.unit.scale_to(&self.unit).is_some()
+    }
+
     /// Return true if this value has no unit.
     pub fn is_no_unit(&self) -> bool {
         self.unit.is_none()
